@@ -16,5 +16,6 @@ CONSTANTS
   Modes = {"entity", "cdata"}
   W <- WFixed
   RootKinds = {"inst", "class", "ipath", "cpath", "prop", "pval", "qual", "qdecl", "meth", "parm"}
+  EmbPaths = FALSE
 INVARIANT ReqAcceptsBadNorm
 CHECK_DEADLOCK FALSE
